@@ -8,7 +8,13 @@ from ..ref.auction import BIDS, CALLS, DENOMS
 RANKCH = '23456789TJQKA'
 
 
+def _fresh(x):
+    """A new str object with the same text (text that comes from a file or a socket is never the interned literal)."""
+    return ''.join(list(x)) if isinstance(x, str) and x else x
+
+
 def _try(f, *a):
+    a = tuple(_fresh(x) for x in a)
     try:
         return f(*a)
     except Exception as e:  # noqa
